@@ -576,8 +576,20 @@ func prodResult(r prodRuleT, alias string, b int, n int, bads []bad, pmsg, lerr,
 		}
 	}
 	tl, reused := prodCtx(b)
+	dbg := ""
+	if b%4 == 2 {
+		dbg = "the first rule of the engine"
+	}
 	return result{K: "run", Inst: r.in.name, Ctor: r.in.ctor, Shape: "product:" + r.root.kind, Pattern: r.root.pattern, Where: w, Extra: r.extra, Do: r.do, Site: site,
-		Trunc: tl, Reused: reused, Alias: alias, LoadErr: lerr, Panic: pmsg, Bad: bads, Reports: n}
+		Trunc: tl, Reused: reused, Alias: alias, Debug: dbg, LoadErr: lerr, Panic: pmsg, Bad: bads, Reports: n}
+}
+
+// prodDebug: every fourth batch runs with RunContext.Debug naming the first rule of the engine (its rejections are printed)
+func prodDebug(b, nrules int) string {
+	if b%4 != 2 || nrules == 0 {
+		return ""
+	}
+	return "g0"
 }
 
 // prodCtx: the RunContext setting of a batch
@@ -636,7 +648,7 @@ func prodRunSetCounted(t *hutil.Target, batch []prodRuleT, b int) (n int, per []
 		run(eng, t, tl, "", st)
 	}
 	counts := map[string]int{}
-	n, bads, pmsg = runCounted(eng, t, tl, "", st, counts)
+	n, bads, pmsg = runDebug(eng, t, tl, "", st, counts, prodDebug(b, len(frules)))
 	for ui, j := range ruleOf {
 		if j >= 0 {
 			per[ui] = counts[fmt.Sprintf("g%d", j)]
@@ -823,9 +835,23 @@ func runProduct(tmp string, full bool, skip map[int]bool, oneBatch, lo, hi int) 
 		f1 := isolate(rs[:mid], b)
 		f2 := isolate(rs[mid:], b)
 		if !f1 && !f2 {
-			// only the rules together fail (state carried from one rule to the next)
-			isolated++
-			emit(prodSetResult(rs, alias, b, n, bads, pmsg, lerr))
+			// neither half fails: the position in the engine matters (Debug follows the first rule) or state is carried from one
+			// rule to the next.  A small set is tried unit by unit (each is the first rule of its engine then).
+			found := false
+			if len(rs) <= 64 {
+				for _, u := range rs {
+					n1, _, b1, p1, l1 := prodRunSetCounted(t, []prodRuleT{u}, b)
+					if failing(b1, p1, l1) {
+						found = true
+						isolated++
+						emit(prodResult(u, alias, b, n1, b1, p1, l1, ""))
+					}
+				}
+			}
+			if !found {
+				isolated++
+				emit(prodSetResult(rs, alias, b, n, bads, pmsg, lerr))
+			}
 		}
 		return true
 	}
